@@ -321,8 +321,20 @@ private:
         LI["arr"] = (int64_t)CAT->getSize().getZExtValue();
         LI["esz"] = (int64_t)Ctx.getTypeSizeInChars(CAT->getElementType()).getQuantity();
       }
-      if (V->isStaticLocal() && V->getInit())
+      if (V->isStaticLocal() && V->getInit()) {
         LI["init"] = initValue(Ctx, V->getInit());   // a lookup table kept inside the function that uses it
+        QualType ET = V->getType();
+        while (const ArrayType *AT = Ctx.getAsArrayType(ET))
+          ET = AT->getElementType();
+        if (const RecordType *RT = ET->getAs<RecordType>()) {
+          if (RT->getDecl()->isCompleteDefinition()) {
+            json::Array Names;
+            for (const FieldDecl *F : RT->getDecl()->fields())
+              Names.push_back(F->getNameAsString());
+            LI["fields"] = std::move(Names);
+          }
+        }
+      }
       LocalInfo[Id] = std::move(LI);
       return Id;
     }
